@@ -91,7 +91,7 @@ class BareHandlers(object):
         self._rec('RCPT', address)
         v = verdict_of(address)
         apply_verdict(reply, v)
-        if not v:
+        if not v or v[0] == '2':
             m = DATA_VERDICT_RE.search(address)
             self.data_verdict = m.group(1) if m else None
 
@@ -177,7 +177,7 @@ def make_validators(trace, sock, banner_verdict):
             self._rec('RCPT', address)
             v = verdict_of(address)
             apply_verdict(reply, v)
-            if not v:
+            if not v or v[0] == '2':
                 m = DATA_VERDICT_RE.search(address)
                 self.data_verdict = m.group(1) if m else None
 
